@@ -5,7 +5,7 @@ from . import runner, scen_bus, scen_hostile, scen_rules, scen_deadline, scen_ac
 from .runner import report, run_cases, seed
 
 CHECKS = {}
-LOWHEAP_IN_C07 = False   # enabled once the allocation-failure findings (C15) are settled
+LOWHEAP_IN_C07 = True
 
 
 def check(pid):
@@ -266,7 +266,7 @@ def c15(tier):
     for r in cres:
         n = r.alloc_count or 0
         total += n
-        step = 6 if q else 1
+        step = 2 if q else 1
         off = s % step
         for i in range(off, n, step):
             cases.append(dict(kind="allocfail", seed=i, config="default", params=dict(script=r.case["params"]["script"], nth=i)))
@@ -277,12 +277,13 @@ def c15(tier):
         for _ in range(30 if q else 600):
             cases.append(dict(kind="allocfail", seed=rng.randrange(1 << 30), config="default",
                               params=dict(script=r.case["params"]["script"], nth=rng.randrange(max(n, 1)), count=rng.choice([2, 2, 3, 5]))))
+    cases += mk("reclaim", 60 if q else 2000, s + 30, "lowheap", mode="lowheap", n_ops=120)
     res = cres + run_cases(cases)
     return report("C15", "fault_enumeration", res,
                   "corpus of 7 scripted sessions (every request type, raw/unix/WebSocket handshakes, routed requests answered / timed out / orphaned by caller and "
                   "owner disconnects, fetch table growth, failed HTTP upgrades, fragmented and close frames); a clean run counts the N allocations of the script "
-                  "(cjet_malloc/cjet_calloc incl. cJSON), then allocation number n fails for every n in 0..N-1 (thorough; every 6th, offset by the seed, in quick) "
-                  "plus random 2-5 consecutive failures; oracle: sanitizers, at most one response per request, only the connection whose processing hit the "
+                  "(cjet_malloc/cjet_calloc incl. cJSON), then allocation number n fails for every n in 0..N-1 (thorough; every 2nd, offset by the seed, in quick) "
+                  "plus random 2-5 consecutive failures, plus bus histories under a 256 KiB heap cap that ordinary adds reach; oracle: sanitizers, at most one response per request, only the connection whose processing hit the "
                   "failure may be dropped, a fresh connection is served normally afterwards, idle baseline after closing, clean SIGTERM exit with LeakSanitizer; "
                   "distinct = (script, transport of the victim) signatures; allocations counted: %d" % total,
                   t0, tier, SIM_ASSUME + ["only allocations through cjet_malloc/cjet_calloc (incl. cJSON hooks) are failed; zlib/websocket plain malloc is not used by the daemon's enabled features"],
